@@ -63,6 +63,20 @@ def plan(tier, seed):
              (["pixee:python/fix-mutable-params", "pixee:python/use-defusedxml"], {"setup.py": b64(c03.SETUP_PY_WITH_TRIGGERS), "app.py": b64(b"import xml.sax\nxml.sax.parse('f')\n")}),
              (["pixee:python/url-sandbox", "pixee:python/sandbox-process-creation"], {"requirements.txt": b64(b"requests\n"), "app.py": b64(b"import requests\nimport subprocess\nfrom flask import request\ndef v():\n    requests.get(request.args['u'])\n    subprocess.run(request.args['c'])\n")}),
              (["pixee:python/sandbox-process-creation", "pixee:python/url-sandbox"], {"pyproject.toml": b64(b'[project]\nname = "x"\ndependencies = [\n    "requests",\n]\n'), "app.py": b64(b"import requests\nimport subprocess\nfrom flask import request\ndef v():\n    requests.get(request.args['u'])\n    subprocess.run(request.args['c'])\n")})]
+    # several dependency-adding codemods in one run where an EARLIER one finds its package already declared (by the project, or by a still earlier codemod of the batch)
+    # and a LATER one needs a different package; one and two manifests
+    DEPSRC = {"pixee:python/use-defusedxml": b"import xml.sax\nxml.sax.parse('f')\n", "pixee:python/harden-pickle-load": b"import pickle\npickle.load(open('f','rb'))\n",
+              "pixee:python/flask-enable-csrf-protection": b"from flask import Flask\napp = Flask(__name__)\n",
+              "pixee:python/url-sandbox": b"import requests\nfrom flask import request\ndef v():\n    requests.get(request.args['u'])\n", "pixee:python/sandbox-process-creation": b"import subprocess\nfrom flask import request\ndef w():\n    subprocess.run(request.args['c'])\n"}
+    DECL = {"pixee:python/use-defusedxml": "defusedxml", "pixee:python/harden-pickle-load": "fickling", "pixee:python/flask-enable-csrf-protection": "flask-wtf", "pixee:python/url-sandbox": "security", "pixee:python/sandbox-process-creation": "security"}
+    dep_ids = sorted(DEPSRC)
+    for q in range(4 if tier == "quick" else 24):
+        ks = rnd.sample(dep_ids, rnd.randint(2, 4))
+        declared = [DECL[k] for k in ks[:-1] if rnd.random() < 0.6]
+        mf = {"requirements.txt": b64(("requests\n" + "".join(d + "\n" for d in declared)).encode())}
+        if q % 2: mf["pyproject.toml"] = b64(('[project]\nname = "x"\ndependencies = [\n  "requests",\n' + "".join(f'  "{d}",\n' for d in declared) + "]\n").encode())
+        files = {f"m_{k.split('/')[1].replace('-', '_')}.py": b64(DEPSRC[k]) for k in ks}; files.update(mf)
+        extra.append((ks, files))
     base = ["{proj}", "--output", "{out}"]
     for q, (ks, files) in enumerate(extra):
         jobs.append({"id": f"xseq{q}|batch", "pair": f"x{q}", "kind": "batch", "ks": ks, "files": files, "argv": base + ["--codemod-include", ",".join(ks)], "monitors": {"snap": False, "pipe": False}})
@@ -104,6 +118,7 @@ def judge(job, res):
                 # every per-codemod result agrees and only the final tree differs: some write was lost or replayed behind the report's back
                 writers = [k.split("/")[1] for k in job["ks"] if any(cs["path"] in difft for cs in pb.get(k, {}).get("changeset", []))]
                 key = "tree-differs-results-agree/" + (os.path.basename(difft[0]) if difft and os.path.basename(difft[0]) in ("setup.py", "requirements.txt", "pyproject.toml", "setup.cfg") else "source-file") + "/" + ">".join(writers[:3])
+            elif difft and all(os.path.basename(x) in ("setup.py", "requirements.txt", "pyproject.toml", "setup.cfg") for x in difft): key = f"dependency-write-differs/{cons.split('/')[1]}"      # only manifests differ: the dependency step, not the detector
             elif C.is_semgrep_detected(cons): key = f"stale-prefilter/{prod[0].split('/')[1] if prod else '?'}>{cons.split('/')[1]}"
             else: key = f"batch-chain-differs/{cons.split('/')[1]}"
             v.append(Violation("C09", key, f"tree diff {difft[:4]}, result diff for {diffr[:4]}", dict(w, tree_diff=difft, result_diff=diffr, batch=pb.get(cons), chain=pc.get(cons))))
